@@ -939,6 +939,11 @@ def fam_naming_fixed():
     add("param-named-like-alias", [["func", "double", [["Signal", "total"]], [], ["bin", "*", V("total"), K(2)]], ["sig", "sum", ["bin", "+", A, B]], ["sig", "total", V("sum")], ["sig", "big", ["call", "double", [V("sum")]]]])
     add("param-named-like-output", [["func", "inc", [["Signal", "o"]], [], ["bin", "+", V("o"), K(1)]], ["sig", "m", ["bin", "*", A, K(2)]], ["sig", "o", V("m")], ["sig", "r", ["proj", ["call", "inc", [V("m")]], "signal-X"]]])
     add("alias-of-consumed", [["sig", "sum", ["bin", "+", A, B]], ["sig", "also", V("sum")], ["sig", "big", ["proj", ["bin", "*", V("sum"), K(2)], "signal-X"]]])
+    far = lambda x, y, n, c: [["place", n, "small-lamp", K(x), K(y), None], ["enable", n, c]]  # noqa: E731
+    add("far-same-name-results", [["input", "d", "signal-A", 10039], ["sig", "xo", ["bin", "+", A, K(7)]], ["sig", "yo", ["bin", "-", V("d"), K(7)]]] + far(0, 0, "l1", ["cmp", ">", V("xo"), K(3)]) + far(40, 0, "l2", ["cmp", ">", V("xo"), K(5)]) + far(0, 2, "l3", ["cmp", ">", V("yo"), K(3)]) + far(40, 2, "l4", ["cmp", ">", V("yo"), K(5)])
+        + [["sig", "xs", V("xo")], ["sig", "ys", V("yo")]])
+    add("far-two-outputs", [["sig", "xo", ["proj", ["bin", "*", A, K(2)], "signal-X"]], ["sig", "yo", ["proj", ["bin", "*", B, K(3)], "signal-X"]]] + far(0, 0, "l1", ["cmp", ">", V("xo"), K(3)]) + far(36, 0, "l2", ["cmp", ">", V("xo"), K(5)]) + far(0, 1, "l3", ["cmp", ">", V("yo"), K(3)]) + far(36, 1, "l4", ["cmp", ">", V("yo"), K(5)])
+        + [["sig", "xshown", V("xo")], ["sig", "yshown", V("yo")]])
     add("many", [["sig", f"o{i}", ["proj", ["bin", "+", A, K(i)], f"signal-{chr(ord('K') + i)}"]] for i in range(6)])
     add("int-not-output", [["int", "k", K(5)], ["sig", "o", ["bin", "*", A, V("k")]]])
     return progs
@@ -1217,6 +1222,41 @@ def fam_fresh_fixed():
     return progs
 
 
+def fam_fresh_stateful():
+    """untyped values in memories, latches and bundle operations (renamed twin must agree)"""
+    progs = []
+
+    def add(name, ins, body, **params):
+        c = _fresh_case(f"ffixed-{name}", [["input"] + list(i) for i in ins] + body, fam="fixed")
+        c["params"] = params
+        progs.append(c)
+
+    U, U2 = V("u"), V("u2")
+    un = [("u", None, 10061), ("u2", None, 10067)]
+    ex = [("x", "signal-S", 10007)]
+    # memory: untyped data / untyped enable / both the same untyped value / untyped memory
+    add("mem-untyped-data", un + ex, [["mem", "m", "signal-M"], ["write", "m", ["proj", U, "signal-M"], ["cmp", ">", V("x"), K(0)]], ["sig", "o", ["proj", ["read", "m"], "signal-X"]]], K=3)
+    add("mem-untyped-enable", un + ex, [["mem", "m", "signal-M"], ["write", "m", ["proj", V("x"), "signal-M"], ["cmp", ">", U, K(0)]], ["sig", "o", ["proj", ["read", "m"], "signal-X"]]], K=3)
+    add("mem-untyped-mem-and-data", un + ex, [["mem", "m", None], ["write", "m", ["bin", "+", U, K(1)], ["cmp", ">", V("x"), K(0)]], ["sig", "o", ["proj", ["read", "m"], "signal-X"]]], K=3)
+    add("mem-untyped-same-data-and-when", un + ex, [["mem", "m", None], ["sig", "c", ["bin", "-", U, K(3)]], ["write", "m", V("c"), V("c")], ["sig", "o", ["proj", ["read", "m"], "signal-X"]]], K=3)
+    add("mem-untyped-arith-when", un + ex, [["mem", "m", "signal-M"], ["sig", "c", ["bin", "-", U, K(3)]], ["write", "m", ["proj", V("x"), "signal-M"], V("c")], ["sig", "o", ["proj", ["read", "m"], "signal-X"]]], K=3)
+    add("mem-counter-untyped-step", un + ex, [["mem", "m", "signal-M"], ["write", "m", ["bin", "+", ["read", "m"], ["proj", U, "signal-M"]], ["cmp", ">", V("x"), K(0)]], ["sig", "o", ["proj", ["read", "m"], "signal-X"]]], K=3)
+    # latches with untyped set / reset, memory typed with an early letter
+    for mt in ("signal-B", "signal-A", "signal-L"):
+        add(f"latch-untyped-reset-{mt[-1]}", [("pad", None, 10061), ("r", None, 10067), ("s", mt, 10069)], [["mem", "l", mt], ["latch", "l", K(1), V("s"), V("r"), "sr"], ["sig", "o", ["proj", ["bin", "+", ["read", "l"], V("pad")], "signal-X"]]], K=3, bool_inputs=["r", "s"])
+        add(f"latch-untyped-set-{mt[-1]}", [("pad", None, 10061), ("s", None, 10067), ("r", mt, 10069)], [["mem", "l", mt], ["latch", "l", K(1), V("s"), V("r"), "rs"], ["sig", "o", ["proj", ["bin", "+", ["read", "l"], V("pad")], "signal-X"]]], K=3, bool_inputs=["r", "s"])
+        add(f"latch-untyped-both-{mt[-1]}", [("s", None, 10061), ("r", None, 10067)], [["mem", "l", mt], ["latch", "l", K(1), V("s"), V("r"), "sr"], ["sig", "o", ["proj", ["read", "l"], "signal-X"]]], K=3, bool_inputs=["r", "s"])
+    # bundles: untyped scalar operand / comparison value / gate signal
+    for nm, members in (("ab", [["lit", "signal-A", K(2)], ["lit", "signal-B", K(3)]]), ("cd", [["lit", "signal-C", K(2)], ["lit", "signal-D", K(3)]]), ("items", [["lit", "iron-plate", K(2)], ["lit", "coal", K(-3)]])):
+        B0 = ["bun", "b", ["bundle", members]]
+        for op in ("*", "+", "-"):
+            add(f"bundle-{nm}-op{op}-untyped", un, [B0, ["bun", "r", ["bin", op, V("b"), U]]])
+        add(f"bundle-{nm}-filter-untyped", un, [B0, ["bun", "r", ["cond", ["cmp", ">", V("b"), U], V("b")]]])
+        add(f"bundle-{nm}-gate-untyped", un, [B0, ["bun", "r", ["cond", ["cmp", ">", U, K(2)], V("b")]]])
+        add(f"bundle-{nm}-any-untyped", un, [B0, ["sig", "r", ["proj", ["cmp", ">", ["any", V("b")], U], "signal-X"]]])
+    return progs
+
+
 def fam_fresh(index):
     rnd = random.Random(f"fresh-{index}")
     pool = [("a", rnd.choice(["signal-A", "signal-S", "signal-C", "signal-1"]), 10007), ("b", rnd.choice(["signal-B", "signal-T", "iron-plate"]), 10009), ("u", None, 10061), ("u2", None, 10067), ("u3", None, 10069)]
@@ -1232,7 +1272,7 @@ def fam_fresh(index):
 
 def corpus_c13(tier):
     n = 25 if tier == "quick" else 150
-    return fam_fresh_fixed() + [fam_fresh(i) for i in range(n)]
+    return fam_fresh_fixed() + fam_fresh_stateful() + [fam_fresh(i) for i in range(n)]
 
 
 # ======================================================================================
@@ -1286,6 +1326,21 @@ def fam_func_fixed():
     add("signal-param-shadows-global-int", [["int", "x", K(4)], F("ab", [("Signal", "x")], [], ["bin", "+", ["cond", ["cmp", ">=", X, K(0)], X], ["cond", ["cmp", "<", X, K(0)], ["bin", "-", K(0), X]]]), ["sig", "o", ["proj", ["call", "ab", [A]], "signal-X"]]])
     add("loop-in-func-entity-param", [F("deco", [("Entity", "target"), ("int", "y")], [["for", "j", ["range", 0, 2, None], [["place", "d", "small-lamp", V("j"), V("y"), None], ["enable", "d", ["cmp", ">", A, V("j")]]]], ["enable", "target", ["cmp", ">", A, K(7)]]], V("y")), ["place", "t1", "small-lamp", K(5), K(5), None], ["int", "r1", ["call", "deco", [V("t1"), K(2)]]]])
     add("loop-in-func-entity-param-zero-iter", [F("deco", [("Entity", "target"), ("int", "y")], [["for", "j", ["range", 0, 0, None], [["place", "d", "small-lamp", V("j"), V("y"), None]]], ["enable", "target", ["cmp", ">", A, K(7)]]], V("y")), ["place", "t1", "small-lamp", K(5), K(5), None], ["int", "r1", ["call", "deco", [V("t1"), K(2)]]]])
+    off = F("off", [("Signal", "v"), ("Signal", "x")], [], ["bin", "*", ["bin", "+", X, V("v")], ["bin", "-", V("v"), K(1)]])
+    add("literal-for-signal-param-twice", [off, ["sig", "o", ["proj", ["call", "off", [K(5), A]], "signal-X"]]])
+    add("intvar-for-signal-param-twice", [["int", "five", K(5)], off, ["sig", "o", ["proj", ["call", "off", [V("five"), A]], "signal-X"]]])
+    add("iterator-for-signal-param-twice", [off, ["for", "i", ["list", [5]], [["place", "l", "small-lamp", V("i"), K(0), None], ["enable", "l", ["cmp", ">", ["call", "off", [V("i"), A]], K(40)]]]]])
+    off2 = F("off2", [("Signal", "v"), ("Signal", "x")], [["sig", "w", ["bin", "*", V("v"), K(2)]]], ["bin", "+", ["bin", "+", X, V("v")], V("w")])
+    add("literal-for-signal-param-local", [off2, ["sig", "o", ["proj", ["call", "off2", [K(5), A]], "signal-X"]]])
+    both = F("both", [("Signal", "y")], [], ["bin", "+", ["proj", V("y"), "iron-plate"], ["proj", V("y"), "iron-plate"]])
+    both2 = F("both2", [("Signal", "y")], [["sig", "p1", ["proj", V("y"), "iron-plate"]]], ["bin", "+", V("p1"), ["proj", ["bin", "*", V("y"), K(2)], "iron-plate"]])
+    uins = [["input", "ku", None, 10061]]
+    add("implicit-expr-arg-projected", uins + [both, ["sig", "o", ["proj", ["call", "both", [["bin", "*", V("ku"), K(3)]]], "signal-X"]]])
+    add("implicit-expr-arg-projected-2", uins + [both2, ["sig", "o", ["proj", ["call", "both2", [["bin", "*", V("ku"), K(3)]]], "signal-X"]]])
+    add("explicit-expr-arg-projected", [both2, ["sig", "o", ["proj", ["call", "both2", [["bin", "*", B, K(3)]]], "signal-X"]]])
+    add("implicit-var-arg-projected", uins + [both2, ["sig", "o", ["proj", ["call", "both2", [V("ku")]], "signal-X"]]])
+    outer = F("outer", [("Signal", "z")], [], ["call", "both2", [V("z")]])
+    add("implicit-expr-arg-forwarded", uins + [both2, outer, ["sig", "o", ["proj", ["call", "outer", [["bin", "+", V("ku"), K(1)]]], "signal-X"]]])
     add("local-memory-per-call", [F("hold", [("Signal", "x"), ("Signal", "en")], [["mem", "m", "signal-M"], ["write", "m", ["proj", X, "signal-M"], ["cmp", ">", V("en"), K(0)]]], ["read", "m"]), ["sig", "o", ["proj", ["call", "hold", [A, C]], "signal-X"]], ["sig", "p", ["proj", ["call", "hold", [B, C]], "signal-Y"]]], kind="history", K=3, places=False)
     return progs
 
@@ -1347,6 +1402,16 @@ def fam_loop16_fixed():
     add("outer-used-in-body", [["sig", "m", ["bin", "+", A, B]], ["for", "i", ["range", 0, 4, None], [["place", "l", "small-lamp", I, K(0), None], ["enable", "l", ["cmp", ">=", V("m"), I]]]]])
     add("loop-in-func-entity-param", [["func", "deco", [["Entity", "target"], ["int", "y"]], [["for", "j", ["range", 0, 2, None], [["place", "d", "small-lamp", V("j"), V("y"), None], ["enable", "d", ["cmp", ">", A, V("j")]]]], ["enable", "target", ["cmp", ">", A, K(7)]]], V("y")], ["place", "t1", "small-lamp", K(5), K(5), None], ["int", "r1", ["call", "deco", [V("t1"), K(2)]]]])
     add("loop-in-func-write-in-second-iter", [["func", "deco2", [["Entity", "target"]], [["for", "j", ["range", 0, 3, None], [["enable", "target", ["cmp", ">", A, V("j")]]]]], K(0)], ["place", "t1", "small-lamp", K(5), K(5), None], ["int", "r1", ["call", "deco2", [V("t1")]]]])
+    BL = ["bun", "bb", ["bundle", [["lit", "signal-C", I], ["lit", "coal", ["bin", "*", I, K(10)]]]]]
+    add("iter-bundle-all", [["for", "i", ["range", 1, 4, None], [BL, ["place", "l", "small-lamp", I, K(0), None], ["enable", "l", ["cmp", ">=", ["all", V("bb")], K(2)]]]]])
+    add("iter-bundle-arith-any", [["for", "i", ["range", 1, 4, None], [BL, ["bun", "dd", ["bin", "*", V("bb"), K(2)]], ["place", "l", "small-lamp", I, K(0), None], ["enable", "l", ["cmp", ">", ["any", V("dd")], K(50)]]]]])
+    add("iter-bundle-list-nested", [["for", "j", ["list", [0, 2]], [["for", "i", ["list", [5, 1, 3]], [["bun", "bb", ["bundle", [["lit", "signal-C", ["bin", "+", I, V("j")]], ["lit", "coal", ["bin", "*", I, K(10)]]]]], ["place", "l", "small-lamp", I, V("j"), None], ["enable", "l", ["cmp", ">=", ["all", V("bb")], K(4)]]]]]]])
+    add("iter-bundle-all-desc", [["for", "i", ["range", 6, 0, -2], [BL, ["place", "l", "small-lamp", I, K(0), None], ["enable", "l", ["cmp", "<", ["all", V("bb")], K(45)]]]]])
+    add("iter-typed-literal-same-type", [["for", "i", ["list", [2, 5, 9]], [["place", "l", "small-lamp", I, K(0), None], ["enable", "l", ["cmp", ">", ["bin", "-", A, ["lit", "signal-A", I]], K(0)]]]]])
+    add("iter-typed-literal-same-type-range", [["for", "i", ["range", 1, 4, None], [["place", "l", "small-lamp", I, K(0), None], ["enable", "l", ["cmp", ">", ["bin", "*", ["bin", "-", A, ["lit", "signal-A", ["bin", "*", I, K(3)]]], K(2)], K(1)]]]]])
+    add("call-twice-typed-literal", [["func", "f", [["int", "n"], ["Signal", "x"]], [], ["bin", "-", V("x"), ["lit", "signal-A", V("n")]]], ["sig", "o1", ["proj", ["call", "f", [K(3), A]], "signal-X"]], ["sig", "o2", ["proj", ["call", "f", [K(9), A]], "signal-Y"]], ["sig", "o3", ["proj", ["call", "f", [K(-4), B]], "signal-Z"]]])
+    add("call-twice-const-bundle", [["func", "mk", [["int", "n"], ["Entity", "e"]], [["bun", "cb", ["bundle", [["lit", "signal-C", V("n")], ["lit", "coal", ["bin", "*", V("n"), K(10)]]]]], ["enable", "e", ["cmp", ">=", ["all", V("cb")], K(3)]]], V("n")],
+                                    ["place", "l1", "small-lamp", K(0), K(0), None], ["place", "l2", "small-lamp", K(2), K(0), None], ["int", "r1", ["call", "mk", [K(1), V("l1")]]], ["int", "r2", ["call", "mk", [K(7), V("l2")]]]])
     add("mem-in-body", [["for", "i", ["range", 0, 2, None], [["mem", "m", "signal-M"], ["write", "m", ["proj", ["bin", "+", A, I], "signal-M"], ["cmp", ">", B, I]], ["place", "l", "small-lamp", I, K(0), None], ["enable", "l", ["cmp", ">", ["read", "m"], K(3)]]]]], places=True, kind_override="history")
     for c in progs:
         if c["params"].pop("kind_override", None):
@@ -1423,6 +1488,16 @@ def fam_lib():
     addg("abs-global-x", [("x", 4)], insv, ["call", "abs", [V("v")]])
     addg("clamp-global-low-high", [("low", 3), ("high", 4)], insv, ["call", "clamp", [V("v"), K(-10), K(10)]])
     addg("between-global-low-high", [("low", 3), ("high", 4)], insv, ["call", "between", [V("v"), K(-10), K(10)]])
+    def add2(name, ins, calls):
+        stmts = [["import", "math.facto"]] + list(ins) + [["sig", f"o{i}", ["proj", c, OUT_SIGS[i]]] for i, c in enumerate(calls)]
+        progs.append({"id": f"lib-{name}", "family": "lib", "stmts": stmts, "kind": "stateless", "params": {"must_accept": True}})
+    add2("pair-divfloor-modpos", insxy, [["call", "div_floor", [X, Y]], ["call", "mod_positive", [X, Y]]])
+    add2("pair-modpos-divfloor", insxy, [["call", "mod_positive", [X, Y]], ["call", "div_floor", [X, Y]]])
+    add2("pair-divfloor-abs", insxy, [["call", "div_floor", [X, Y]], ["call", "abs", [X]]])
+    add2("pair-abs-min-max", insxy, [["call", "abs", [X]], ["call", "min", [X, Y]], ["call", "max", [X, Y]]])
+    add2("pair-clamp-between-abs", insx, [["call", "clamp", [X, K(-5), K(5)]], ["call", "between", [X, K(-5), K(5)]], ["call", "abs", [X]]])
+    add2("pair-abs-and-user-cmp", insx, [["call", "abs", [X]], ["cond", ["cmp", "<", X, K(0)], K(7)], ["cond", ["cmp", ">=", X, K(0)], K(9)]])
+    add2("pair-bits", insx, [["call", "get_bit", [X, K(3)]], ["call", "set_bit", [X, K(3)]], ["call", "clear_bit", [X, K(3)]], ["call", "toggle_bit", [X, K(3)]]])
     add("abs-lib-path", insx, ["call", "abs", [X]], imp="lib/math.facto")
     return progs
 
@@ -1748,6 +1823,8 @@ def fam_places_fixed():
     add("unwired", lamp("c0", K(0), K(0), proto="steel-chest") + lamp("c1", K(1), K(0), proto="steel-chest") + lamp("b0", K(0), K(2), proto="transport-belt") + lamp("b1", K(1), K(2), proto="transport-belt") + lamp("p", K(5), K(5), proto="medium-electric-pole"))
     for pt, proto in (("small", "small-electric-pole"), ("medium", "medium-electric-pole"), ("big", "big-electric-pole"), ("substation", "substation")):
         add(f"user-pole-{pt}", lamp("l0", K(0), K(0), A) + lamp("up", K(25), K(12), proto=proto) + lamp("up2", K(-14), K(-9), proto=proto) + lamp("up3", K(3), K(1), proto=proto))
+    add("signal-const-coordinates", [["sigconst", "left", 2], ["sigconst", "org", 0], ["sigconst", "top", 1], ["for", "i", ["range", 0, 4, None], lamp("l", ["bin", "+", V("left"), ["bin", "*", I, K(2)]], ["bin", "+", V("top"), K(1)], ["cmp", ">", A, I])]]
+        + lamp("z0", ["bin", "+", V("org"), K(2)], ["bin", "+", V("org"), K(6)]) + lamp("z1", ["bin", "*", V("left"), V("org")], ["bin", "+", V("top"), K(8)]) + lamp("z2", V("org"), ["bin", "-", V("org"), V("left")]))
     add("props", lamp("l", K(2), K(3), A, props={"always_on": 1, "use_colors": 1}) + lamp("t", K(-4), K(6), props={"station": '"Iron Pickup"'}, proto="train-stop") + lamp("i", K(0), K(0), A, proto="inserter", props={"direction": 4}) + lamp("am", K(6), K(6), props={"recipe": '"iron-gear-wheel"'}, proto="assembling-machine-1"))
     add("adjacent-to-origin", lamp("l0", K(0), K(0), A) + lamp("l1", K(1), K(0), B) + lamp("l2", K(0), K(1), ["cmp", ">", ["bin", "+", A, B], K(3)]) + [["sig", "o", ["proj", ["bin", "*", A, B], "signal-X"]]])
     add("far-corners", lamp("l0", K(-40), K(-40), A) + lamp("l1", K(40), K(40), A) + lamp("l2", K(-40), K(40), B) + lamp("l3", K(40), K(-40), B))
@@ -1795,6 +1872,9 @@ def fam_power_fixed():
     add("negative-block", lamps([(-10, -10), (-9, -10), (-10, -9), (-9, -9)]))
     add("offset-far", lamps([(50, 50), (52, 50)]))
     add("mixed", [["place", "i0", "inserter", K(0), K(0), None], ["enable", "i0", ["cmp", ">", A, K(1)]], ["place", "am", "assembling-machine-1", K(3), K(0), None], ["enable", "am", ["cmp", ">", B, K(1)]], ["place", "ch", "steel-chest", K(7), K(0), None], ["place", "pm", "pump", K(9), K(0), None]])
+    add("user-poles", lamps([(0, 0), (2, 0)]) + [["place", "up1", "medium-electric-pole", K(20), K(1), None], ["place", "up2", "small-electric-pole", K(-9), K(6), None], ["place", "up3", "big-electric-pole", K(10), K(10), None], ["place", "up4", "substation", K(-12), K(-12), None]])
+    add("signal-const-coordinates", [["sigconst", "left", 2], ["sigconst", "org", 0], ["sigconst", "top", 1]] + [s_ for j in range(4) for s_ in ([["place", f"l{j}", "small-lamp", ["bin", "+", V("left"), K(j * 2)], ["bin", "+", V("top"), K(1)], None], ["enable", f"l{j}", ["cmp", ">", A, K(j)]]])]
+        + [["place", "z0", "small-lamp", ["bin", "+", V("org"), K(2)], ["bin", "+", V("org"), K(6)], None], ["place", "z1", "small-lamp", ["bin", "*", V("left"), V("org")], ["bin", "+", V("top"), K(8)], None]])
     add("memory", [["mem", "m", "signal-M"], ["write", "m", P(A, "signal-M"), ["cmp", ">", B, K(0)]], ["sig", "r0", ["read", "m"]]] + lamps([(0, 0)], cond=lambda j: ["cmp", ">", ["read", "m"], K(3)]), K=3)
     body = []
     for i in range(10):
